@@ -586,7 +586,7 @@ class PendingAssign(PendingNode[Assign | AnnAssign]):
                 attr="__setitem__",
                 ctx=Load(),
             ),
-            args=[_slice, value],
+            args=[expr_transf(self.nsp, _slice), value],
             keywords=[],
         )
 
